@@ -19,9 +19,9 @@
 //   reg <s> <c> <src> <rst:0|1> <en|->    register clocked by c, optional reset value / enable signal
 //   cdc <s> <src> <csrc> <cdst>   allowClockDomainCrossing(src, csrc, cdst)
 //   out <c|-> <src>               output pin inside ClockScope(c) / with its clock detached
-//   mem <m> <words> <noconf:0|1>
+//   mem <m> <words> <noconf:0|1> [ext <readLatency>]      "ext": MemType::EXTERNAL with that read latency
 //   mrd <s> <m> <addr> <c>        asynchronous read port created inside ClockScope(c)
-//   mwr <m> <c> <addr> <data>     write port clocked by c
+//   mwr <m> <c> <addr> <data> [<en>|-]   write port clocked by c, optionally inside IF(en[0])
 //   ext [se] in <s>:<c>|<s>@<c> ... out <s>:<c>|<s>@<c> ... clkout <c>:<parent> ...
 //                                 ExternalModule: input ports fed by signal s, declared for clock c through
 //                                 PinConfig::clockOverride (":") or through the active ClockScope ("@"); output ports
@@ -179,6 +179,7 @@ struct Interp {
 	std::map<int, std::unique_ptr<Clock>> clocks;
 	std::map<int, std::unique_ptr<UInt>> sigs;
 	std::map<int, std::unique_ptr<Memory<UInt>>> mems;
+	std::map<int, size_t> memLatency;
 	std::vector<std::unique_ptr<Area>> areas;
 	std::vector<std::unique_ptr<ExternalModule>> exts;
 	size_t pinCtr = 0;
@@ -265,14 +266,26 @@ struct Interp {
 		} else if (c == "mem") {
 			auto m = std::make_unique<Memory<UInt>>(std::stoull(t[2]), UInt(4_b));
 			if (t[3] == "1") m->noConflicts();
+			if (t.size() > 5 && t[4] == "ext") {		// MemType::EXTERNAL: replaced by io pins during post-processing
+				memLatency[std::stoi(t[1])] = std::stoull(t[5]);
+				m->setType(MemType::EXTERNAL, std::stoull(t[5]));
+				m->setName("xmem" + t[1]);
+			}
 			mems[std::stoi(t[1])] = std::move(m);
 		} else if (c == "mrd") {
 			ClockScope cs(clk(t[4]));
 			UInt v = (*mems.at(std::stoi(t[2])))[sig(t[3])];
+			// read latency registers of an external memory (absorbed by the memory group)
+			for (size_t i = 0; i < memLatency[std::stoi(t[2])]; i++)
+				v = reg(v, {.allowRetimingBackward = true});
 			def(t[1], v);
 		} else if (c == "mwr") {
 			ClockScope cs(clk(t[2]));
-			(*mems.at(std::stoi(t[1])))[sig(t[3])] = sig(t[4]);
+			if (t.size() > 5 && t[5] != "-") {			// conditional write: the condition becomes the port's wrEnable
+				IF (sig(t[5])[0])
+					(*mems.at(std::stoi(t[1])))[sig(t[3])] = sig(t[4]);
+			} else
+				(*mems.at(std::stoi(t[1])))[sig(t[3])] = sig(t[4]);
 		} else if (c == "clkdrive") {
 			// clock net driven by logic: in both views, or in one view only (the idiom of ExternalModule::addClockOut / IBUFDS:
 			// an unassigned dummy whose export (or simulation) value is overridden)
